@@ -46,6 +46,8 @@ type lifeLine struct {
 	Role         string   `json:"role"`
 	Ops          []lifeOp `json:"ops"`
 	CloseTimeoutMs int    `json:"close_timeout_ms"`
+	DialOverlap    int    `json:"dial_overlap"`   // library sockets still open when a new dial succeeded (max over the history)
+	ListenOverlap  int    `json:"listen_overlap"` // library listeners still open when a new Listen succeeded
 	FinalCloseMs int      `json:"final_close_ms"`
 	FinalCloseRes string  `json:"final_close_res"`
 	SecondCloseRes string `json:"second_close_res"`
@@ -357,6 +359,7 @@ func lifeScenario(id int, seed int64) *lifeLine {
 	for k := 0; k < 40; k++ { // goroutines need a moment to unwind
 		line.LibGoroutines, line.LeakSample = libGoroutines()
 		line.OpenSockets, line.OpenListeners = cut.Net.OpenSockets(), cut.Net.OpenListeners()
+		line.DialOverlap, line.ListenOverlap = cut.Net.Overlaps()
 		if line.LibGoroutines == 0 && line.OpenSockets == 0 && line.OpenListeners == 0 {
 			break
 		}
@@ -407,6 +410,7 @@ func lifeAudit(line *lifeLine, cut *lab.CUT, closeFn func() error) {
 	for k := 0; k < 40; k++ {
 		line.LibGoroutines, line.LeakSample = libGoroutines()
 		line.OpenSockets, line.OpenListeners = cut.Net.OpenSockets(), cut.Net.OpenListeners()
+		line.DialOverlap, line.ListenOverlap = cut.Net.Overlaps()
 		if line.LibGoroutines == 0 && line.OpenSockets == 0 && line.OpenListeners == 0 {
 			break
 		}
